@@ -3910,6 +3910,8 @@ class OptionalNode(ActionSinkNode):
                 self.finish_actions.append(action)
 
     def convert(self, current_error_handlers):
+        if self.sub_contents is None:
+            raise IllegalASTStateError("Empty optional body: an optional of actions only has nothing to be optional on", self)
         sub_dfa = self.sub_contents.convert(current_error_handlers)
         if sub_dfa.starting_state in sub_dfa.accepting_states:
             raise IllegalDFAStateError("Ambigious path in optional: should use optional or go to next", sub_dfa.starting_state)
